@@ -13,6 +13,9 @@ from harness import chars, core, drivers, findings, shelldrv, tlc
 from checks import shell14
 
 TEX = 'Ab \\foo{cb} d\nxx b yy\nlast b\n'
+# the same text with a German insertion: in multi-language mode the proofreader is called once per part and the offsets of
+# the second answer are shifted by the length of the first part
+TEXML = 'Ab \\foo{cb} d\n\\foreignlanguage{german}{Das b ist ein b deutscher Satz mit b} xx b yy\nlast b\n'
 MODES = ['plain', 'json', 'xml', 'xml-b', 'html']
 VALS = {'null': None, 'bool': True, 'int': 7, 'float': 1.5, 'str': 's', 'list': [1], 'dict': {'a': 1}}
 
@@ -109,15 +112,18 @@ def locations(mode, out):
 
 
 def drive(case):
-    r = shelldrv.run_shell({'t.tex': TEX}, ['--output', case['mode'], '--link', '--context', '1', 't.tex'], answer=case['answer'])
+    tex = TEXML if case.get('ml') else TEX
+    r = shelldrv.run_shell({'t.tex': tex}, ['--output', case['mode'], '--link', '--context', '1'] + (['--multi-language'] if case.get('ml') else []) + ['t.tex'],
+                           answer=case['answer'])
     rec = {'id': case['id'], 'mode': case['mode'], 'mut': case['mut'], 'predicted': case['predicted'], 'exit': r['exit'],
            'traceback': 'Traceback (most recent call last)' in r['stderr'] or 'Traceback (most recent call last)' in r['stdout'],
            'owndiag': '*** ' in r['stderr'] and ('error' in r['stderr'] or 'problem' in r['stderr']),
            'stderr': r['stderr'][-400:], 'answer': case['answer'].decode('latin-1')[:2000]}
-    lines = TEX.split('\n')[:-1]
+    lines = tex.split('\n')[:-1]
     rec['nlines'] = len(lines)
     rec['linelen'] = [len(l) for l in lines]
-    rec['textlen'] = len(TEX)
+    rec['textlen'] = len(tex)
+    rec['ml'] = bool(case.get('ml'))
     locs = []
     if r['exit'] == 0 and not rec['traceback']:
         try:
@@ -139,7 +145,7 @@ def run(prop, tier, seed, replay=None):
     raw = json.dumps(base).encode()
     if replay:
         cs = json.load(open(replay))['case']
-        cases = [dict(id=0, mode=cs['mode'], mut=cs['mut'], predicted=cs['predicted'], answer=cs['answer'].encode('latin-1'))]
+        cases = [dict(id=0, mode=cs['mode'], mut=cs['mut'], predicted=cs['predicted'], answer=cs['answer'].encode('latin-1'), ml=cs.get('ml', False))]
     else:
         cfg = tlc.cfg_text(constants={'NBytes': len(raw), 'TextLen': len(text), 'LengthGuarded': True,
                                       'FirstOff': base['matches'][0]['offset'], 'LastOff': base['matches'][-1]['offset']}, invariants=['NoTraceback', 'Dump'])
@@ -158,6 +164,11 @@ def run(prop, tier, seed, replay=None):
                 continue
             for mode in MODES:
                 cases.append(dict(id=len(cases), mode=mode, mut=mu, predicted=m['predict'][mode], answer=ans))
+            # multi-language mode (two text parts, the answer is played for each): all mutations of the fields the shell reads itself
+            if mu['kind'] not in ('truncate', 'pair') and (not q or mu.get('path', '') in ('', 'matches', 'm.offset', 'm.length', 'm.context.offset', 'm.context.length', 'm.context.text')
+                                                           or len(cases) % 7 == seed % 7):
+                for mode in (MODES if not q else [MODES[len(cases) % 5], 'plain']):
+                    cases.append(dict(id=len(cases), mode=mode, mut=mu, predicted=m['predict'][mode], answer=ans, ml=True))
         c.extra['mutations'] = len(muts)
         c.exhaustive = not q
     recs = c.drive(cases, drive, chunksize=4)
